@@ -156,6 +156,16 @@ class Subset(Profile):
                 ops.append({"op": "derive", "name": rng.choice(SRC_DERIVE)})
         for s in range(rng.randint(1, cfg["max_sel"])):
             sel = self.gen_select(rng, cfg, [o["name"] for o in ops if o["op"] == "derive"])
+            if rng.random() < 0.2:
+                # inheritance probe: the same quantity derived on the source right before slicing and
+                # read on the result right after (half of the time through an unsorted face list)
+                x = rng.choice([nm for nm in SRC_DERIVE if nm in RES_DERIVE])
+                ops.append({"op": "derive", "name": x})
+                if rng.random() < 0.5 and sel["how"] != "faces_at_lat":
+                    sel.update(how="isel_face", idx=[rng.randrange(10**6) for _ in range(rng.choice([3, 5, 9]))], mode="list")
+                    for kk in ("element", "lon", "lat", "center", "center_elem", "r", "k", "cart", "center_nd", "lat_node", "par", "threads"):
+                        sel.pop(kk, None)
+                sel["after"] = list(sel.get("after") or []) + [x]
             if sel["how"] in ("knn", "bcircle") and rng.random() < 0.4:
                 # the accessor will come BACK to a kind the cached tree wrapper served before
                 # another kind (A -> B -> A on one wrapper)
